@@ -234,9 +234,22 @@ func (f *Frame) execInstr(ins ssa.Instruction, st *State) {
 		if f.top {
 			f.curCallArgs = vs
 			f.anchorsAt("return", "", st)
+			// also addressable by the text of the returned expressions: assert@return snapshot.LastIncludedIndex, nil#0
+			if txt := u.eng.ReturnTextAt(x.Pos()); txt != "" {
+				f.anchorsAt("return", txt, st)
+			}
 			f.checkPost(st, vs)
 		}
-	case *ssa.If, *ssa.Jump:
+	case *ssa.If:
+		// branching is handled by run; `assert@if <condition text>#n` clauses are evaluated here, in the
+		// state in which the condition is tested (after the merge of whatever precedes the if statement)
+		if f.top && f.contract != nil && len(f.contract.Asserts) > 0 && x.Cond.Pos().IsValid() {
+			if txt := u.eng.IfCondTextAt(x.Cond.Pos()); txt != "" {
+				f.curCallArgs = nil
+				f.anchorsAt("if", txt, st)
+			}
+		}
+	case *ssa.Jump:
 		// handled by run
 	case *ssa.Panic:
 		txt := "explicit panic"
